@@ -213,11 +213,16 @@ NWait == /\ cpc = "n.wait" /\ dwg[cdec] = 0
          /\ cdec' = 0
          /\ UNCHANGED <<blk, nalloc, derr, dwg, head, filepos, inflating, working, control, closedCh, want, cbase, coff, nops, cfound>> /\ UNCHANGED aVars
 
+\* Until fix 2bc52f5 the synchronous (demand) load also skipped members the cache reports, like the
+\* read-ahead does (SyncSkips = TRUE: the as-coded behaviour; harmless in this model, whose cache never
+\* holds a block the reader cannot use - on the real code a cache holding another Reader's blocks made
+\* the demand load skip the requested member).  The repaired code loads the requested member.
+SyncSkips == FALSE
 \* --- synchronous load of member cbase by decompressor YDec into the consumer's block:
 \* `dec.using(bg.current).nextBlockAt(base, rs).wait()`
 YDec == IF RD = 1 THEN 1 ELSE cdec
 YUse == /\ cpc = "y.use"
-        /\ dblk' = [dblk EXCEPT ![YDec] = cur] /\ coff' = cbase /\ cpc' = "y.peek"
+        /\ dblk' = [dblk EXCEPT ![YDec] = cur] /\ coff' = cbase /\ cpc' = IF SyncSkips THEN "y.peek" ELSE "y.read"
         /\ UNCHANGED <<blk, nalloc, derr, dwg, head, filepos, inflating, cache, cur, cerr, want, cdec, cbase, ci, nops, cfound>>
         /\ UNCHANGED chVars /\ UNCHANGED aVars
 YPeek == /\ cpc = "y.peek"
